@@ -30,7 +30,7 @@ TOL_SCALE = Fraction(1, 2**14)  # relative float32 error bound used for every nu
 def translate():
     from translator import registry
 
-    return registry.generate("Constants", "RefineCC")
+    return registry.generate("Constants", "RefineCC", "Kernels")
 
 
 # ------------------------------------------------------------------------------------------------
@@ -478,6 +478,138 @@ def variant_cross_check(report, status):
         status.problem("translator", f"variant read in the source {read} differs from the behaviour observed {VARIANT}")
 
 
+# ------------------------------------------------------------------------------------------------
+# the regenerated kernels (translator/pyexpr.py, Generated/Kernels.lean)
+# ------------------------------------------------------------------------------------------------
+def kernel_triples(rng, count):
+    """cost triples [c0, c1, c2] (wire values): every triple over {0,1,2,3,NaN}, flats, ties, random integers,
+    dyadic floats, negative values, NaN anywhere (the centre included: the functions are defined there too)"""
+    out = [list(t) for t in itertools.product(ALPHABET, repeat=3)]
+    out += [[v, v, v] for v in (0, 5, -3, "1/2", 1000)]
+    for _ in range(count):
+        mode = rng.choice(["int", "tie", "float", "neg", "near"])
+        if mode == "int":
+            t = [rng.randrange(0, 9) for _ in range(3)]
+        elif mode == "tie":
+            t = [rng.randrange(0, 3) for _ in range(3)]
+        elif mode == "float":
+            t = [wire(Fraction(rng.randrange(0, 4096), 64)) for _ in range(3)]
+        elif mode == "neg":
+            t = [rng.randrange(-8, 9) for _ in range(3)]
+        else:  # a centre barely better than its neighbours: long shifts, the clamp of `quadratic`
+            c = rng.randrange(0, 50)
+            t = [wire(c + Fraction(rng.randrange(0, 3), 1024)), c, wire(c + Fraction(rng.randrange(0, 40), 8))]
+            if rng.random() < 0.5:
+                t.reverse()
+        if rng.random() < 0.1:
+            t[rng.randrange(3)] = "nan"
+        out.append(t)
+    return out
+
+
+def real_method(fn, triple, measure, dtype):
+    import numpy as np
+
+    a = np.array([float("nan") if frac(v) is None else float(frac(v)) for v in triple], dtype=dtype)
+    try:
+        s, c, f = fn(a, 0.0, measure)
+    except ZeroDivisionError:
+        return {"res": "zero_division"}
+    val = lambda x: "nan" if x != x else wire(Fraction(float(x)))  # noqa: E731
+    return {"res": "ok", "shift": val(s), "cost": val(c), "flag": int(f)}
+
+
+def kernel_cross_check(ctx, report, status):
+    """The REAL `Vfit.refinement_method` / `Quadratic.refinement_method` (the compiled njit functions) on a few hundred
+    triples against (a) the translator's own exact evaluation of the AST it translated (`pyexpr.evaluate`, Fractions):
+    a mismatch means the translator misreads Python -> `status.problem("translator", …)`; (b) the hand model through
+    `C06.refine` on a one-row map whose cells are the triples (numeric centres): a mismatch is a disagreement."""
+    import numpy as np
+    from pandora.refinement import quadratic as quadratic_mod, vfit as vfit_mod
+    from translator import gen_kernels, pyexpr
+
+    try:
+        kernels = gen_kernels.kernels()
+    except Exception:  # Unsupported: already reported by build_and_audit (translate())
+        return
+    report.translator_checks += 1
+    # the translator's self-test: every function outside the subset is refused, CPython and the evaluator agree on
+    # the functions inside it (the third reading, Lean's, is checked at build time: Generated/KernelsSelfTest.lean)
+    from translator import pyexpr_selftest
+
+    try:
+        for what in pyexpr_selftest.refused_problems():
+            status.problem("translator", f"pyexpr self-test: a construct outside the subset is not refused — {what}")
+        for what in pyexpr_selftest.python_problems():
+            status.problem("translator", f"pyexpr self-test: the evaluator differs from CPython — {what}")
+    except Exception as exc:  # pylint: disable=broad-except
+        status.problem("translator", f"pyexpr self-test crashed: {type(exc).__name__}: {exc}")
+    real = {"vfit": ("vfitMethod", vfit_mod.Vfit.refinement_method),
+            "quadratic": ("quadraticMethod", quadratic_mod.Quadratic.refinement_method)}
+    triples = kernel_triples(ctx.rng, ctx.n(150, 1500))
+    problems = 0
+    for method, (lean_name, fn) in real.items():
+        k = kernels[lean_name]
+        for measure in ("min", "max"):
+            results = []
+            for t in triples:
+                tol = TOL_SCALE * (1 + max([abs(frac(v)) for v in t if frac(v) is not None] or [0]))
+                r = real_method(fn, t, measure, np.float32)
+                results.append(r)
+                report.count("kernel_calls")
+                # (a) translator's evaluator
+                try:
+                    res, vals = pyexpr.evaluate(k, [frac(v) for v in t], 0, measure)
+                except pyexpr.TranslatorBug as exc:
+                    res, vals = "translator_bug:" + str(exc), None
+                ev = {"res": "zero_division"} if res == "ZeroDivisionError" else {"res": res}
+                if vals is not None:
+                    ev = {"res": "ok", "shift": wire(vals[0]), "cost": wire(vals[1]), "flag": int(vals[2])}
+                same = ev["res"] == r["res"] and (r["res"] != "ok" or (
+                    ev["flag"] == r["flag"] and near(ev["shift"], r["shift"], tol) and near(ev["cost"], r["cost"], tol)))
+                if not same:
+                    problems += 1
+                    if problems <= 3:
+                        status.problem("translator", f"translated {method}.refinement_method evaluates differently from the "
+                                       f"real function on cost={t} measure={measure}", f"real={r} translated={ev}")
+            # (b) hand model, numeric centres only (the loop never passes a NaN centre)
+            idx = [i for i, t in enumerate(triples) if frac(t[1]) is not None]
+            case = {"method": method, "is_max": measure == "max", "subpix": 1, "dmin": -1, "dmax": 1,
+                    "cv": [[triples[i] for i in idx]], "disp": [[0] * len(idx)], "mask": [[0] * len(idx)]}
+            model = ctx.lean.call("C06.refine", **model_payload(case))
+            for j, i in enumerate(idx):
+                t, r = triples[i], results[i]
+                tol = TOL_SCALE * (1 + max([abs(frac(v)) for v in t if frac(v) is not None] or [0]))
+                e = model["err"][0][j]
+                if e:
+                    m = {"res": e}
+                else:
+                    m = {"res": "ok", "shift": model["disp"][0][j], "cost": model["coeff"][0][j], "flag": model["mask"][0][j]}
+                same = m["res"] == r["res"] and (r["res"] != "ok" or (
+                    m["flag"] == r["flag"] and near(m["shift"], r["shift"], tol) and near(m["cost"], r["cost"], tol)))
+                if not same:
+                    report.disagree("refinement_method", single_pixel(case, 0, j), r, m)
+    # (c) the guard of loop_refinement: the translated expression against CPython's evaluation of the same source text
+    g = kernels.get("refineGuard")
+    if g is not None:
+        for n_disp in (1, 2, 3, 5):
+            for dsp in range(-1, n_disp + 1):
+                for dv in (-2, -1, 0, Fraction(1, 2), 1, 3):
+                    for (lo, hi) in ((-1, 1), (0, 3), (-2, -2)):
+                        env = {"dsp": dsp, "n_disp": n_disp, "disp": np.array([[float(dv)]]), "row": 0, "col": 0,
+                               "d_min": float(lo), "d_max": float(hi), "np": np}
+                        want = bool(eval(g.source, {"__builtins__": {}}, env))  # pylint: disable=eval-used
+                        res, vals = pyexpr.evaluate(g, dsp, n_disp, dv, lo, hi)
+                        report.count("kernel_guard_evaluations")
+                        if res != "ok" or bool(vals[0]) != want:
+                            problems += 1
+                            if problems <= 3:
+                                status.problem("translator", f"translated guard `{g.source}` evaluates to {vals} where Python "
+                                               f"gives {want} (dsp={dsp}, n_disp={n_disp}, disp={dv}, interval={lo, hi})")
+    report.notes.append(f"kernels: {4 * len(triples)} direct calls of the two refinement_method compared with the "
+                        f"translator's evaluator and with the hand model; {problems} translator mismatches")
+
+
 def run(ctx, report, status):
     translator_cross_check(report, status)
     detect_variant(report)
@@ -487,7 +619,9 @@ def run(ctx, report, status):
         "specification evaluated on the implementation's output. Cases: every cost triple over {0,1,2,3,NaN}^3 at "
         "every position of a 5-sample interval (both methods, min/max, subpix 1/2/4); random maps with ties, NaN "
         "holes, per-pixel intervals, invalid pixels, preset bit 3 and off-grid (post-filter) disparities; each "
-        "random map refined a second time; refinement steps observed inside real pipelines (pandora.run). "
+        "random map refined a second time; refinement steps observed inside real pipelines (pandora.run); a few hundred "
+        "direct calls of Vfit/Quadratic.refinement_method (ties, flats, NaN anywhere, min/max) compared with the "
+        "translator's own evaluation of the kernels it regenerated and with the hand model. "
         "Non-trivial = at least one valid pixel with a numeric disparity; distinct by canonical input."
     )
     rng = ctx.rng
@@ -505,6 +639,7 @@ def run(ctx, report, status):
                 check_case(ctx, report, next_step_case(case, impl, rng.choice([None, "vfit", "quadratic"])), "repeat")
     for case, captured, label in pipeline_cases(ctx, report, ctx.n(6, 60)):
         check_case(ctx, report, case, label, captured=captured)
+    kernel_cross_check(ctx, report, status)  # last: the streams above keep their cases for a given seed
 
 
 def search(ctx, report, status):
